@@ -15,7 +15,7 @@ RULE = ("masters: random + boundary scalars; ALL 5 word counts, ALL 49 byte coun
         "(exhaustive) x indexes {0, 1, 2^31-1, random}; WIF and XPRV x same indexes; rejection on both sides of every bound "
         "(word counts, bytes 15/65, length 19/87, index -1, -2^31, 2^31, 2^32, floats, None); the index_list handed to "
         "derive_path is recorded for every call; distinct = distinct (monitor, case) digests"
-        " EXTENSIONS: + a warm helper object of another master re-pointed at this master, fractional / non-int indexes, colliding parameters across applications, three calling styles (keywords / positional / mixed) for every request and every refusal")
+        " EXTENSIONS: + a warm helper object of another master re-pointed at this master, fractional / non-int indexes, colliding parameters across applications, three calling styles (keywords / positional / mixed) for every request and every refusal, BIP85 master given as a node DERIVED in this process")
 LEVEL_TEXT = ("Every BIP85 output of the real API is compared with the reference BIP85 (own HMAC, own BIP32/BIP39/Base64); "
               "a probe on derive_path records the exact index list used by each call, which must be the application's fully "
               "hardened path, and the (application, parameter, index)->path map is checked injective over the whole run; "
@@ -38,8 +38,19 @@ def mk(case):
         if len(_OBJ) > 64:
             _OBJ.clear()
         xk = rb32.XKey(case["k"], None, case["c"])
-        # master given as an object, or parsed from an extended-key string of any of the six private SLIP-132 flavours
-        node = bridge.mk_node(xk, case.get("mnet", False), case.get("form", "ctor"), purpose=case.get("vpurpose", 44))
+        if case.get("form") == "derived":
+            # the key handed to BIP85 is a node object the caller DERIVED in this process (it has a parent chain up to some
+            # root): BIP85 works on the key it is given, wherever the object came from
+            dpath = [84 + H, H, 3 + H] if case["k"] & 1 else [5, 7]
+            try:
+                xk2 = rb32.derive(xk, dpath)
+                node = bridge.mk_node(xk, case.get("mnet", False), "ctor").derive_path(index_list=list(dpath))
+                xk = xk2
+            except rb32.InvalidChild:
+                node = bridge.mk_node(xk, case.get("mnet", False), "ctor")
+        else:
+            # master given as an object, or parsed from an extended-key string of any of the six private SLIP-132 flavours
+            node = bridge.mk_node(xk, case.get("mnet", False), case.get("form", "ctor"), purpose=case.get("vpurpose", 44))
         if case.get("via") == "from_xprv" and case.get("form") == "str":
             b = BIP85DeterministicEntropy.from_xprv(xprv=xk.xprv(rb32.version_for("prv", case.get("mnet", False), case.get("vpurpose", 44))),
                                                     testnet=case.get("mnet", False))
@@ -210,7 +221,7 @@ def judge_bip85_data(ctx, case, tap):
 
 def gen_master(rnd):
     ktag, k = gen.scalar(rnd)
-    return {"k": k, "c": gen.chain_code(rnd)[1], "ktag": ktag, "form": rnd.choice(["ctor", "str", "str", "bytes"]),
+    return {"k": k, "c": gen.chain_code(rnd)[1], "ktag": ktag, "form": rnd.choice(["ctor", "str", "str", "bytes", "derived", "derived"]),
             "vpurpose": rnd.choice([44, 49, 84]), "mnet": rnd.random() < 0.4, "via": rnd.choice(["ctor", "from_xprv"])}
 
 
